@@ -12,7 +12,7 @@ LEVELS = {
     'C01': 'translation_validation', 'C02': 'translation_validation', 'C03': 'translation_validation',
     'C04': 'model_checking', 'C05': 'model_checking', 'C06': 'translation_validation', 'C07': 'model_checking', 'C08': 'model_checking',
     'C09': 'model_checking', 'C10': 'translation_validation', 'C11': 'model_checking', 'C12': 'model_checking', 'C13': 'model_checking',
-    'C14': 'model_checking', 'C16': 'model_checking', 'C17': 'model_checking', 'C18': 'model_checking',
+    'C14': 'model_checking', 'C15': 'model_checking', 'C16': 'model_checking', 'C17': 'model_checking', 'C18': 'model_checking',
     'C19': 'model_checking', 'C20': 'model_checking',
 }
 
